@@ -151,6 +151,14 @@ CHECKS.update({
              "exact repeat counts, sync after the first emission of every value, identical sequences for identical seeds.",
         design_ref="5/C20", note=SEQ_NOTE + " The pseudo-random draw is inferred from the same value's next emission in the recorded sequence; string-list values and FixedQueue are not covered; no int64 overflow.",
         technique="TLA+ spec (FakeQueue.tla) + trace validation with inferred oracle draws on the real UpdateQueue (FakeQueueTrace.tla)"),
+    "C01": dict(category="model_checking",
+        text="Pipeline.tla models targets, the collector's sessions (reset on reconnect, registration of configured targets with the cache) and subscriber views, model-checked for Faithful with two mutants "
+             "(never registers / no reset) that must violate it; the REAL gnmi_collector and gnmi_cli binaries built from the working tree are run against scripted TLS targets (all scalar kinds, keyed/origin/prefix-split/"
+             "deprecated paths, deletes, stream drops forcing redial) and every view - client library STREAM and ONCE, gnmi_cli with flags, -proto, -proto_file, and the group display - taken after a sentinel has passed "
+             "through the pipeline is validated by TLC (PipelineTrace.tla) to equal the targets' final state exactly.",
+        design_ref="5/C01", note="End-to-end conformance on random configurations of the real processes; exhaustive only for the small model. Targets are scripted in-process gRPC servers; the data trees have no leaf/branch "
+                                 "clashes; leaf-lists are not compared in the group display; two genuine defects found and repaired (39f6c9c, dfac7d0).",
+        technique="TLA+ spec (Pipeline.tla, TLC, mutants) + trace validation of runs of the real collector/CLI binaries (PipelineTrace.tla)"),
 })
 
 NOT_YET = {
